@@ -327,6 +327,12 @@ class Report:
         return 1 if self.violations else 0
 
 
+def emit_all_gen():
+    """regenerate every Gen/*.v table from the current tree (each emitter rewrites its file only when it changed)"""
+    import gen
+    gen.emit_all(stage_gotables(), stage_tables())
+
+
 def coq_cases(name, body, timeout=900):
     """compile a generated cases file (outside the project tree) against the built theories"""
     d = os.path.join(BUILD, "cases")
